@@ -30,7 +30,7 @@ ASSUMPTIONS = [
 ]
 FLOORS = {'if_cases': 500, 'poisoned_unselected': 200, 'andor_cases': 500,
           'not_cases': 50, 'spy_calls': 1000, 'omitted_else': 20,
-          'reassigned_cases': 100}
+          'reassigned_cases': 100, 'foreign_namespace_evaluations': 10}
 ANCHOR_FUNCS = {
     'xlcalculator/xlfunctions/logical.py': ['IF', 'AND', 'OR', 'NOT'],
     'xlcalculator/ast_nodes.py': ['FunctionNode.eval'],
@@ -420,6 +420,38 @@ def run(ctx):
                      group=f'{it["kind"]}:{kind}:{it.get("poison")}:'
                            f'{got[0]}')
 
+    # ---- another application's evaluator in the same process ------------------
+    # An Evaluator with its own namespace in which IF/AND/OR/NOT are the
+    # user's strict (eager) functions evaluates first (even shards) or between
+    # the two parts of the workload (odd shards); the library's own functions
+    # in the default namespace must stay lazy afterwards.
+    def foreign_namespace():
+        from xlcalculator.xlfunctions import xl
+
+        def IF(c, a=True, b=False):
+            return a if c else b
+
+        def AND(*xs):
+            return all(bool(x) for x in xs)
+
+        def OR(*xs):
+            return any(bool(x) for x in xs)
+
+        def NOT(x):
+            return not x
+        ns = xl.FUNCTIONS.copy()
+        ns.update({'IF': IF, 'AND': AND, 'OR': OR, 'NOT': NOT})
+        m = subject.compile_dict({
+            'A1': 1, 'B1': '=IF(A1>0,2,3)', 'B2': '=AND(A1,TRUE)',
+            'B3': '=OR(A1,FALSE)', 'B4': '=NOT(A1)',
+            'B5': '=IF(AND(A1,OR(A1,A1)),NOT(A1),5)'})
+        ev = Evaluator(m, namespace=ns)
+        for a in ('B1', 'B2', 'B3', 'B4', 'B5'):
+            subject.outcome_of(lambda: ev.evaluate(f'{S}!{a}'))
+        ctx.event('foreign_namespace_evaluations', 5)
+    if ctx.shard % 2 == 0:
+        foreign_namespace()
+
     # ---- exhaustive: IF over every truth value, each poison, omitted else ---
     g = G(rng)
     work = 0
@@ -465,6 +497,8 @@ def run(ctx):
                               'poison': pname, 'omitted_else': omitted,
                               'shape': ('if-poison', pname, omitted)})
     flush()
+    if ctx.shard % 2 == 1:
+        foreign_namespace()
 
     # ---- sampled ---------------------------------------------------------------
     for i in range(n_formulas):
